@@ -133,6 +133,18 @@ func replayFile(t *testing.T, path string) {
 		checkOff(t, test, chdirWork(t), &p)
 	case "TestNoFileAccessStrace":
 		TestNoFileAccessStrace(t)
+	case "TestBuiltinsInModules":
+		var p builtinsCase
+		if _, err := ev.LoadReplay(path, &p); err != nil {
+			t.Fatalf("load %s: %v", path, err)
+		}
+		checkBuiltinsInModules(t, test, &p)
+	case "TestModuleMapModel":
+		var p mmCase
+		if _, err := ev.LoadReplay(path, &p); err != nil {
+			t.Fatalf("load %s: %v", path, err)
+		}
+		checkModuleMapModel(t, test, &p)
 	default:
 		t.Fatalf("unknown test %q in %s", test, path)
 	}
